@@ -125,6 +125,29 @@ def rangePiece (r : AddrRange) : List Piece := if r.len = 0 then [] else [⟨r.a
 def lutIndex (activation : Nat) : Option Nat :=
   if activation % 32 ≥ 16 then some (activation % 8) else none
 
+/-- Precision (bytes) of the value the activation stage — and with it the table lookup — works on: the OFM precision,
+    unless the ACTIVATION register forces a range (`clip_range`, bits 12..15 of the register: 2 = uint8, 3 = int8,
+    5 = int16; `ethos_u55_regs.clip_range`). Vela forces int8 when the OFM is int32 (the softmax exponent table). -/
+def actBytes (b : BlockOp) : Nat :=
+  let clip := b.activation / 4096 % 16
+  if clip = 2 ∨ clip = 3 then 1 else if clip = 5 then 2 else b.ofm.elemBytes
+
+/-- Bytes of the table a TABLE_LOOKUP activation reads, decided by the *programmed* precisions (hand-written from the
+    register description and from the table formats `lut.create_lut_tensor` builds / `lut.get_lut_index` addresses):
+    an 8-bit activation value indexes 256 entries of OFM width — 256 bytes for an 8-bit result, 1 KiB for the int32
+    result of the softmax exponent table — and a 16-bit one interpolates in 512 entries of 32 bits (base and slope):
+    2 KiB, the whole table window. The IFM precision plays no role: a requantising operation (int8 -> int16) fused with
+    a 16-bit table reads the 2 KiB table. Anything else counts as the whole window. -/
+def lutTableBytes (b : BlockOp) : Nat :=
+  if actBytes b = 1 then 256 * b.ofm.elemBytes else 2048
+
+/-- SHRAM address of the table selected by activation value 16 + `li`: the index counts 256-byte units of the table window
+    whatever the table size (`lut.optimize_high_level_cmd_stream` programs (address − window start) / 256 when it places a
+    table: a 1 KiB table in the upper half of the window is index 4, a 2 KiB table only fits index 0).
+    `lut.get_lut_index`, used when an equal table is found in SHRAM again, divides by the table size instead; the two agree
+    for 256-byte tables and for offset 0. -/
+def lutAddr (e : Env) (_b : BlockOp) (li : Nat) : Nat := e.lutBase + li * 256
+
 def blockAccesses (b : BlockOp) (i : OpInfo) (e : Env) : List Access :=
   [ ⟨b.ifm.region, false, "IFM", fmPieces b.ifm i.ifm.y0 i.ifm.x0 i.ifm.c0⟩ ] ++
   (match b.ifm2 with
@@ -133,7 +156,7 @@ def blockAccesses (b : BlockOp) (i : OpInfo) (e : Env) : List Access :=
   b.weights.map (fun w => ⟨w.region, false, "WEIGHTS", rangePiece w⟩) ++
   b.scales.map (fun w => ⟨w.region, false, "SCALES", rangePiece w⟩) ++
   (match lutIndex b.activation with
-   | some idx => [⟨REGION_SHRAM, false, "LUT", [⟨e.lutBase + idx * 256, i.lutLen, 0⟩]⟩]
+   | some idx => [⟨REGION_SHRAM, false, "LUT", [⟨lutAddr e b idx, lutTableBytes b, 0⟩]⟩]
    | none => []) ++
   [ ⟨b.ofm.region, true, "OFM", fmPieces b.ofm i.ofm.y0 i.ofm.x0 i.ofm.c0⟩ ]
 
@@ -204,11 +227,14 @@ def constReads (e : Env) (what : String) (rs : List AddrRange) (srcs : List Int)
   (rs.zip srcs).flatMap fun (r, src) =>
     if r.region = e.constRegion then [] else [⟨what, r.region, constTid, [⟨r.addr, r.len, src - r.addr⟩], 0⟩]
 
+/-- the table read of a TABLE_LOOKUP activation: slot and size follow from the decoded registers alone (activation
+    index, IFM / OFM precision); only the identity of the expected table (`lutsrc`) is side information. A table of another
+    size loaded over the slot — or a smaller one than the operation reads — leaves bytes with a different tag. -/
 def lutRead (e : Env) (b : BlockOp) (i : OpInfo) : List Read :=
   match lutIndex b.activation with
   | some li =>
-    let a := e.lutBase + li * 256
-    [⟨"LUT", REGION_SHRAM, constTid, [⟨a, i.lutLen, i.lutsrc - a⟩], 0⟩]
+    let a := lutAddr e b li
+    [⟨"LUT", REGION_SHRAM, constTid, [⟨a, lutTableBytes b, i.lutsrc - a⟩], 0⟩]
   | none => []
 
 /-- everything a block operation reads, in reporting order -/
@@ -296,6 +322,19 @@ def constSourceProblems (e : Env) (ops : List DecOp) (infos : List Info) : List 
     match op, info with
     | .block b, .block i =>
       constRangeProblems e idx "WEIGHTS" b.weights i.wsrc ++ constRangeProblems e idx "SCALES" b.scales i.ssrc
+    | _, _ => []
+
+/-- the size of the table Vela believes it loaded (`lutLen`, side information) against the size the operation reads -/
+def lutSideProblems (ops : List DecOp) (infos : List Info) : List String :=
+  (ops.zip infos).zipIdx.flatMap fun ((op, info), idx) =>
+    match op, info with
+    | .block b, .block i =>
+      (match lutIndex b.activation with
+       | some li =>
+         if i.lutLen ≠ lutTableBytes b then
+           [s!"op {idx} LUT: the table loaded for it has {i.lutLen} bytes, the operation reads {lutTableBytes b} bytes at slot {li} (activation on {actBytes b}-byte values, OFM {b.ofm.elemBytes}-byte elements)"]
+         else []
+       | none => [])
     | _, _ => []
 
 end VelaVerif.Mem
